@@ -55,3 +55,74 @@ T('C05', 'truthiness for len', (D, 'for queue in cast(\n                Tuple[Li
 T('C05', 'merged ifs', (D, 'if time <= self.time:\n                    if consume:\n                        queue.pop(0)\n                    return event',
                          'if time <= self.time and consume:\n                    queue.pop(0)\n                if time <= self.time:\n                    return event'))
 T('C05', 'renamed position', (D, 'position = bisect.bisect_right(', 'idx = bisect.bisect_right('), (D, 'queue.insert(position, (time, event))', 'queue.insert(idx, (time, event))'))
+
+# ---------------------------------------------------------------- C01
+B('C01', 'drop priority-class exit', (D, "                            ignored_states.add(source)\n                            break\n", "                            ignored_states.add(source)\n"))
+B('C01', 'hoist ignore-add out of found branch', (D, "                        if has_found_transitions:\n                            for state in ignored_state_selector(source):\n                                ignored_states.add(state)",
+   "                        if True:\n                            for state in ignored_state_selector(source):\n                                ignored_states.add(state)"))
+B('C01', 'exposed_event = event', (D, 'exposed_event = event if has_event else None', 'exposed_event = event'))
+B('C01', 'priority direction flipped', (D, 'transitions, key=priority_order, reverse=True):', 'transitions, key=priority_order, reverse=False):'))
+B('C01', 'drop previous-class exit', (D, "            if len(selected_transitions) > 0:\n                break\n", "            if len(selected_transitions) > 0:\n                pass\n"))
+B('C01', 'drop event=None for eventless', (D, 'event = None if transitions[0].event is None else event', 'event = event if transitions else None'))
+B('C01', 'drop source-in-states filter', (D, 'if transition.source in states:', 'if transition.source is not None:'))
+B('C01', 'sorted_groupby ignores reverse', (UT, 'return sorted(groups.items(), key=sort_key, reverse=reverse)', 'return sorted(groups.items(), key=sort_key)'))
+B('C01', 'depth direction flipped', (D, 'sorted_groupby(transitions, key=depth_order, reverse=inner_first)', 'sorted_groupby(transitions, key=depth_order, reverse=not inner_first)'))
+B('C01', 'event name test dropped', (D, "if transition.event is None or transition.event == getattr(event, 'name', None):", "if transition.event is None or event is not None:"))
+B('C01', 'eventless_first default off', (D, 'eventless_first=True, inner_first=True) -> List[Transition]:', 'eventless_first=False, inner_first=True) -> List[Transition]:'))
+B('C01', 'found flag never reset per source', (D, "                    has_found_transitions = False\n\n                    # Group and sort transitions based on their priority", "                    # Group and sort transitions based on their priority"),
+                                              (D, "        ignored_states = set()  # type: Set[str]\n", "        ignored_states = set()  # type: Set[str]\n        has_found_transitions = False\n"))
+B('C01', 'guard ignored when selecting', (D, "if transition.guard is None or self._evaluator.evaluate_guard(\n                                    transition, exposed_event):", "if transition.guard is None or self._evaluator.evaluate_guard(\n                                    transition, exposed_event) is not None:"))
+B('C01', 'ignored sources not skipped', (D, "                    if source in ignored_states:\n                        continue\n", "                    if source in ignored_states:\n                        pass\n"))
+B('C01', 'source not added to ignore set', (D, "                            ignored_states.add(source)\n                            break", "                            break"))
+B('C01', 'descendants ignored under inner-first', (D, "        if inner_first:\n            ignored_state_selector = self._statechart.ancestors_for\n        else:\n            ignored_state_selector = self._statechart.descendants_for",
+    "        if not inner_first:\n            ignored_state_selector = self._statechart.ancestors_for\n        else:\n            ignored_state_selector = self._statechart.descendants_for"))
+B('C01', 'python evaluator hides event', (PY, "                >= self._interpreter._idle_time[transition.source]\n            ),\n            'event': event,", "                >= self._interpreter._idle_time[transition.source]\n            ),\n            'event': None,"))
+B('C01', 'groupby drops falsy items', (UT, "    for value in iterable:\n        groups[key(value)].append(value)", "    for value in iterable:\n        if key(value):\n            groups[key(value)].append(value)"))
+B('C01', 'selection over leaves only', (D, 'transitions = self._select_transitions(event, states=self._configuration)', 'transitions = self._select_transitions(event, states=self._statechart.leaf_for(self._configuration))'))
+T('C01', 'negated priority key', (D, "                        return t.priority\n", "                        return -t.priority\n"), (D, 'transitions, key=priority_order, reverse=True):', 'transitions, key=priority_order, reverse=False):'))
+T('C01', 'truthiness of selection', (D, "            if len(selected_transitions) > 0:\n                break", "            if selected_transitions:\n                break"))
+T('C01', 'renamed flag', (D, "                    has_found_transitions = False", "                    hit = False"), (D, "                                has_found_transitions = True", "                                hit = True"), (D, "                        if has_found_transitions:", "                        if hit:"))
+T('C01', 'nested filter merged', (D, "            if transition.source in states:\n                if transition.event is None or transition.event == getattr(event, 'name', None):\n                    # Compute order based on depth\n                    if transition.source not in _state_depth_cache:\n                        _state_depth_cache[transition.source] = self._statechart.depth_for(\n                            transition.source)\n\n                    considered_transitions.append(transition)",
+   "            if transition.source in states and (\n                    transition.event is None or transition.event == getattr(event, 'name', None)):\n                if transition.source not in _state_depth_cache:\n                    _state_depth_cache[transition.source] = self._statechart.depth_for(\n                        transition.source)\n                considered_transitions.append(transition)"))
+T('C01', 'early continue filter', (D, "            if transition.source in states:\n                if transition.event is None or transition.event == getattr(event, 'name', None):\n                    # Compute order based on depth\n                    if transition.source not in _state_depth_cache:\n                        _state_depth_cache[transition.source] = self._statechart.depth_for(\n                            transition.source)\n\n                    considered_transitions.append(transition)",
+   "            if transition.source not in states:\n                continue\n            if transition.event is not None and transition.event != getattr(event, 'name', None):\n                continue\n            if transition.source not in _state_depth_cache:\n                _state_depth_cache[transition.source] = self._statechart.depth_for(\n                    transition.source)\n            considered_transitions.append(transition)"))
+
+# ---------------------------------------------------------------- C03
+_ACTION = "            sent_events.extend(self._evaluator.execute_action(step.transition, step.event))\n"
+B('C03', 'action before the exit loop',
+  (D, "        # Exit states\n        for state in exited_states:", "        if step.transition:\n            sent_events.extend(self._evaluator.execute_action(step.transition, step.event))\n        # Exit states\n        for state in exited_states:"),
+  (D, _ACTION + "\n            # Postconditions and invariants", "\n            # Postconditions and invariants"))
+B('C03', 'entry code result dropped', (D, "sent_events.extend(self._evaluator.execute_on_entry(state))", "self._evaluator.execute_on_entry(state)"))
+B('C03', 'append instead of insert(0)', (D, "entered_states.insert(0, state)", "entered_states.append(state)"))
+B('C03', 'exit list reversal removed (after F5 fix: sort by +depth)', (D, "key=lambda s: (-self._statechart.depth_for(s), s)):\n                # Only leave states", "key=lambda s: (self._statechart.depth_for(s), s)):\n                # Only leave states"))
+B('C03', 'MacroStep.exited_states reads entered_states', (ST, "            states += step.exited_states", "            states += step.entered_states"))
+B('C03', 'stabilize result dropped', (D, "executed_steps.extend(self._stabilize())", "self._stabilize()"))
+B('C03', 'returned MicroStep without sent_events', (D, "entered_states=step.entered_states, exited_states=step.exited_states,\n                         sent_events=sent_events)", "entered_states=step.entered_states, exited_states=step.exited_states)"))
+B('C03', 'entry loop reversed', (D, "        for state in entered_states:\n            # Preconditions", "        for state in reversed(entered_states):\n            # Preconditions"))
+B('C03', 'configuration updated before entry code', (D, "            sent_events.extend(self._evaluator.execute_on_entry(state))\n\n            # Update configuration\n            self._configuration.add(state.name)", "            self._configuration.add(state.name)\n            sent_events.extend(self._evaluator.execute_on_entry(state))\n"))
+B('C03', 'state removed before exit code', (D, "            # Execute exit action\n            sent_events.extend(self._evaluator.execute_on_exit(state))\n", "            self._configuration.discard(state.name)\n            sent_events.extend(self._evaluator.execute_on_exit(state))\n"))
+B('C03', 'stabilisation after all transitions', (D, "                executed_steps.append(self._apply_step(step))\n                executed_steps.extend(self._stabilize())", "                executed_steps.append(self._apply_step(step))\n            executed_steps.extend(self._stabilize())"))
+B('C03', 'returned entered list differs', (D, "entered_states=step.entered_states, exited_states=step.exited_states,\n                         sent_events", "entered_states=step.exited_states, exited_states=step.exited_states,\n                         sent_events"))
+B('C03', 'transitions sorted shallowest first', (D, "transitions, key=lambda t: (-self._statechart.depth_for(t.source), t.source))", "transitions, key=lambda t: (self._statechart.depth_for(t.source), t.source))"))
+B('C03', 'stabilization step unreported', (D, "            steps.append(self._apply_step(step))\n            step = self._create_stabilization_step", "            self._apply_step(step)\n            step = self._create_stabilization_step"))
+B('C03', 'MacroStep.sent_events reversed', (ST, "            for event in step.sent_events:\n                events.append(event)", "            for event in reversed(step.sent_events):\n                events.append(event)"))
+B('C03', 'MacroStep.transitions keeps None', (ST, "return [step.transition for step in self._steps if step.transition]", "return [step.transition for step in self._steps]"))
+B('C03', 'events raised before entry', (D, "        # Enter states\n        for state in entered_states:", "        for event in sent_events:\n            self._raise_event(event)\n        sent_events = []\n        # Enter states\n        for state in entered_states:"))
+B('C03', 'history sorted deepest first', (D, "states_to_enter.sort(key=lambda x: (self._statechart.depth_for(x), x))", "states_to_enter.sort(key=lambda x: (-self._statechart.depth_for(x), x))"))
+T('C03', 'renamed collection list', (D, "        sent_events = []  # type: List[Event]\n\n        # Exit states", "        sent_events = collected = []  # type: List[Event]\n\n        # Exit states"))
+T('C03', 'independent statements swapped', (D, "            self._entry_time[state.name] = self.time\n            self._idle_time[state.name] = self.time", "            self._idle_time[state.name] = self.time\n            self._entry_time[state.name] = self.time"))
+T('C03', 'list comprehension for map', (D, "entered_states = list(map(self._statechart.state_for, step.entered_states))", "entered_states = [self._statechart.state_for(n) for n in step.entered_states]"))
+
+# ---------------------------------------------------------------- C07
+B('C07', 'stabilisation leaves unsorted', (D, "        leaves = sorted([self._statechart.state_for(name) for name in leaves_names],\n                        key=lambda s: (-self._statechart.depth_for(s.name), s.name))", "        leaves = [self._statechart.state_for(name) for name in leaves_names]"))
+B('C07', 'orthogonal children unsorted', (D, "return MicroStep(entered_states=sorted(self._statechart.children_for(leaf.name)))", "return MicroStep(entered_states=list(self._statechart.children_for(leaf.name)))"))
+B('C07', 'configuration unsorted', (D, "return sorted(self._configuration, key=lambda s: (self._statechart.depth_for(s), s))", "return list(self._configuration)"))
+B('C07', 'transition sort key without the source name', (D, "transitions, key=lambda t: (-self._statechart.depth_for(t.source), t.source))", "transitions, key=lambda t: -self._statechart.depth_for(t.source))"))
+B('C07', 'history restoration unsorted', (D, "                states_to_enter.sort(key=lambda x: (self._statechart.depth_for(x), x))\n", ""))
+B('C07', 'history sorted by depth only', (D, "states_to_enter.sort(key=lambda x: (self._statechart.depth_for(x), x))", "states_to_enter.sort(key=lambda x: self._statechart.depth_for(x))"))
+B('C07', 'leaves sorted by depth only', (D, "key=lambda s: (-self._statechart.depth_for(s.name), s.name))", "key=lambda s: -self._statechart.depth_for(s.name))"))
+B('C07', 'id() in a sort key', (D, "transitions, key=lambda t: (-self._statechart.depth_for(t.source), t.source))", "transitions, key=lambda t: (-self._statechart.depth_for(t.source), t.source, id(t)))"))
+B('C07', 'invariants over the raw set', (D, "configuration = self.configuration  # Use self.configuration to benefit from the sorting", "configuration = self._configuration"))
+B('C07', 'F5 (after fix): exit order from children lists', (D, "            for descendant in sorted(\n                    self._statechart.descendants_for(last_before_lca),\n                    key=lambda s: (-self._statechart.depth_for(s), s)):", "            for descendant in self._statechart.descendants_for(last_before_lca)[::-1]:"))
+T('C07', 'sorted with reverse and negated key', (D, "return sorted(self._configuration, key=lambda s: (self._statechart.depth_for(s), s))", "return sorted(list(self._configuration), key=lambda s: (self._statechart.depth_for(s), s))"))
+T('C07', 'leaves sorted via named key function', (D, "        leaves = sorted([self._statechart.state_for(name) for name in leaves_names],\n                        key=lambda s: (-self._statechart.depth_for(s.name), s.name))", "        def _leaf_key(s):\n            return (-self._statechart.depth_for(s.name), s.name)\n        leaves = sorted([self._statechart.state_for(name) for name in leaves_names], key=_leaf_key)"))
